@@ -30,9 +30,12 @@
 //   saving       : with save_interval s exactly the iterates k % s == 0 and the last one are written (absolute numbering)
 //   history      : objects first used with another number of subsets, re-configured and set_up again = fresh objects (bitwise)
 //   restart      : for every k, a fresh object started at k+1 from the Interfile image saved after k reproduces all later
-//                  saved images bitwise (enforce_initial_positivity on and off); with the option on (default) and exact
-//                  zeros in the saved image this FAILS on the unchanged tree: KNOWN-CANDIDATE
-//                  restart:enforce-initial-positivity-lifts-exact-zeros
+//                  saved images bitwise (enforce_initial_positivity on and off; what set_up of the resumed run does to
+//                  the saved image is also an operation for the model).  With the configuration of the uninterrupted
+//                  run, the option on (default) and exact zeros in the saved image this FAILS on the unchanged tree:
+//                  KNOWN-CANDIDATE restart:enforce-initial-positivity-lifts-exact-zeros (deterministic minimal
+//                  reproduction: run_restart_witness).  Switching the option ON for the resumed run of a reconstruction
+//                  made with it off is another configuration and judged only when set_up has nothing to lift.
 //   refusal      : set_up refuses numbers of subsets that are not balanced
 // Usage: c07_osmaposl <seed> <quick|thorough> <opsfile> <implfile>
 #include "stir_fixtures.h"
@@ -81,6 +84,25 @@ oracle_fail(const std::string& what)
   ++g_fails;
   if (g_fails <= 40)
     std::fprintf(g_orc, "ORACLE-FAIL %s\n", what.c_str());
+}
+
+// The one class of input on which the restart clause fails on the unchanged tree (see run_restart_witness): the resumed
+// reconstruction has the configuration of the uninterrupted one, enforce_initial_positivity is on (the default), the
+// image saved after sub-iteration k has exact zeros, set_up of the resumed run lifts them.  One KNOWN-CANDIDATE line per
+// run (the key names the class); further occurrences are comments.
+static void
+known_restart_finding(const std::string& where)
+{
+  static int seen = 0;
+  if (seen++ == 0)
+    std::fprintf(g_orc,
+                 "KNOWN-CANDIDATE restart:enforce-initial-positivity-lifts-exact-zeros resuming at sub-iteration k+1 "
+                 "from the image saved after k, with the configuration of the uninterrupted run, does not reproduce that run when "
+                 "image_k has exact zeros and enforce_initial_positivity is on (the default): set_up of the resumed run lifts the "
+                 "zeros to 1e-6*min_positive while the uninterrupted run keeps them 0 [%s]\n",
+                 where.c_str());
+  else if (seen <= 6)
+    std::fprintf(g_orc, "# also: %s\n", where.c_str());
 }
 
 static Vec
@@ -991,22 +1013,18 @@ run_real_case(const std::string& name, const Geo& g, const Data& d, RunCfg c, vh
             if (!same)
               {
                 const bool lifted = !bitwise_equal(loaded, after_setup);
-                if (enf && has_nonpos && lifted)
+                if (enf && has_nonpos && lifted && same_cfg)
                   {
+                    // the property's statement fails: same configuration as the uninterrupted run (option on, the
+                    // default), the zeros of image_k were produced by the run itself (its own start image was made
+                    // strictly positive by set_up)
                     g_cov["restart_broken_by_enforced_positivity"]++;
-                    static bool reported = false;
-                    if (!reported)
-                      {
-                        reported = true;
-                        std::fprintf(g_orc,
-                                     "KNOWN-CANDIDATE restart:enforce-initial-positivity-lifts-exact-zeros resuming at sub-iteration k+1 "
-                                     "from the image saved after k does not reproduce the uninterrupted run when that image has "
-                                     "exact zeros and enforce_initial_positivity is left at its default (true): set_up lifts the "
-                                     "zeros to 1e-6*min_positive while the uninterrupted run keeps them 0\n");
-                        std::fprintf(g_orc, "# first seen: case=%s k=%d first differing iterate=%d nsub=%d\n", name.c_str(), k,
-                                     first_diff, c.nsub);
-                      }
+                    known_restart_finding("case=" + name + " k=" + std::to_string(k) + " first differing iterate="
+                                          + std::to_string(first_diff) + " nsub=" + std::to_string(c.nsub)
+                                          + " map=" + std::to_string(c.map_code()));
                   }
+                else if (enf && has_nonpos && lifted)
+                  g_cov["restart_with_option_switched_on_lifts_zeros_not_judged"]++;
                 else
                   oracle_fail("restart at k+1=" + std::to_string(k + 1) + " differs from the uninterrupted run at iterate "
                               + std::to_string(first_diff) + ", case=" + name + " enforce=" + std::to_string(enf)
@@ -1292,6 +1310,87 @@ run_range_cases(const Geo& g, const Data& d, vh::Rng& rng, const std::vector<int
     }
 }
 
+// ------------------------------------------------------------------------------------------------ restart witness
+// Deterministic minimal reproduction of the restart finding on the real class (the counterpart of
+// `C07_restart_fails_with_enforced_positivity` in lean/StirVerif/C07/Props.lean), everything at its default:
+// 8 detectors x 2 rings, span 1, 5x5x3 image, ray-tracing matrix, the smallest number of subsets > 1 the library accepts,
+// subset sensitivities, no prior, no filter, enforce_initial_positivity = true in BOTH runs, uniform start image 1,
+// counts: 2 in every bin, except 0 in the bins of subset 0 with tangential position >= 0.
+// Voxels seen in subset 0 only by bins without counts become exactly 0 in sub-iteration 1 and stay 0; the run resumed at
+// sub-iteration 2 from the saved image 1 lifts them in set_up, subset 1 (which has counts there) then scales them up.
+static void
+run_restart_witness()
+{
+  Geo g = make_geo(8, 2, 5, 0);
+  Data d;
+  d.has_add = d.has_norm = false;
+  const std::size_t nb = g.bins.size();
+  d.y.assign(nb, 2.);
+  d.add.assign(nb, 0.);
+  d.eff.assign(nb, 1.);
+  d.y_pd = make_pd(g, d.y);
+  const std::vector<int> legal = legal_subset_numbers(g, d);
+  int nsub = 0;
+  for (int n : legal)
+    if (n > 1 && nsub == 0)
+      nsub = n;
+  if (nsub == 0)
+    return;
+  for (std::size_t b = 0; b < nb; ++b)
+    if (g.basic_view[b] % nsub == 0 && g.bins[b].tangential_pos_num() >= 0)
+      d.y[b] = 0.;
+  d.y_pd = make_pd(g, d.y);
+  RunCfg c;
+  c.nsub = nsub;
+  c.N = 2;
+  const std::string prefU = g_outdir + "/witness_u", prefR = g_outdir + "/witness_r";
+  ++g_checks;
+  g_cov["restart_witness_runs"]++;
+  try
+    {
+      Objects U = build(g, d, c, 1, 2, prefU);
+      shared_ptr<TargetT> imu(g.tmpl->clone());
+      imu->fill(1.F);
+      if (U.recon->set_up(imu) != Succeeded::yes)
+        throw std::runtime_error("set_up (uninterrupted)");
+      U.recon->reconstruct(imu);
+      const Vec u1 = read_image(prefU + "_1.hv"), u2 = read_image(prefU + "_2.hv");
+      Objects R = build(g, d, c, 2, 2, prefR);
+      shared_ptr<TargetT> imr(read_from_file<TargetT>(prefU + "_1.hv"));
+      if (R.recon->set_up(imr) != Succeeded::yes)
+        throw std::runtime_error("set_up (resumed)");
+      const Vec lifted = to_vec(*imr);
+      R.recon->reconstruct(imr);
+      const Vec r2 = read_image(prefR + "_2.hv");
+      int zeros = 0, differ = 0, ex = -1;
+      for (int j = 0; j < g.nvox; ++j)
+        {
+          zeros += u1[j] == 0.F;
+          if (std::memcmp(&u2[j], &r2[j], sizeof(float)) != 0)
+            {
+              ++differ;
+              if (ex < 0 && u1[j] == 0.F)
+                ex = j;
+            }
+        }
+      g_cov["restart_witness_zero_voxels_after_1"] += zeros;
+      g_cov["restart_witness_differing_voxels_in_2"] += differ;
+      if (differ > 0 && ex >= 0 && !bitwise_equal(u1, lifted))
+        known_restart_finding("witness: 8 detectors x 2 rings, 5x5x3 image, " + std::to_string(nsub)
+                              + " subsets, uniform start image 1, counts 2 everywhere but 0 in the bins of subset 0 with tangential "
+                                "position >= 0, all options at their defaults: image 1 has "
+                              + std::to_string(zeros) + " exact zeros, " + std::to_string(differ)
+                              + " voxels of image 2 differ, e.g. voxel " + std::to_string(ex) + ": uninterrupted " + vh::hex(u2[ex])
+                              + ", resumed " + vh::hex(r2[ex]) + " (set_up made it " + vh::hex(lifted[ex]) + ")");
+      else if (differ > 0)
+        oracle_fail("restart witness: resumed run differs from the uninterrupted run, but not through lifted zeros");
+    }
+  catch (std::exception& e)
+    {
+      oracle_fail(std::string("restart witness failed to run: ") + e.what());
+    }
+}
+
 // ------------------------------------------------------------------------------------------------ main
 int
 main(int argc, char** argv)
@@ -1321,6 +1420,8 @@ main(int argc, char** argv)
           ::unlink((g_outdir + "/" + n).c_str());
       }
   }
+
+  run_restart_witness();
 
   const int ngeo = thorough ? 72 : 8;
   int case_no = 0;
